@@ -97,7 +97,12 @@ def run_workers(cases, cfg, nworkers=NWORKERS):
             errs[k] = "timeout"
             return
         if p.returncode != 0:
-            errs[k] = p.stderr[-3000:]
+            stuck = ""
+            try:
+                stuck = open(os.path.join(WORK, "cpp", f"progress_unit{k}.txt")).read().strip()
+            except OSError:
+                pass
+            errs[k] = f"rc={p.returncode} (last case started: {stuck}) " + p.stderr[-3000:]
             return
         try:
             outs[k] = json.loads(p.stdout)["results"]
@@ -442,7 +447,7 @@ def run(ctx):
             ctx.notes[f"exempt_rows_now_ok:{t}"] = stale
 
     cases = directed + build_cases(ctx, tables)
-    cfg = dict(seed=ctx.seed, ninputs=ctx.scale(36, 64), debugs=[0, 1])
+    cfg = dict(seed=ctx.seed, ninputs=ctx.scale(36, 64), debugs=[0, 1], cpu_seconds=ctx.scale(900, 3600))
     results = run_workers(cases, cfg)
     ctx.notes["worker_wall_s"] = round(time.time() - t0, 1)
     by_case = {c["id"]: c for c in cases}
